@@ -52,14 +52,20 @@ def integrate(
     for ii in range(1, len(signal)):
         curr_dt = time[ii] - time[ii - 1]
 
+        # the step before the future step (for n = 1 that is the previous step)
+        before_future_dt = prev_dt
         if ii + n - 1 < nt:
             future_dt = time[ii + n - 1] - time[ii + n - 2]
+            if n > 1:
+                before_future_dt = time[ii + n - 2] - time[ii + n - 3]
         else:
             future_dt = curr_dt
             restart = True
 
-        if (np.abs(future_dt - prev_dt) > 0.01 * curr_dt) or (
-            np.abs(curr_dt - prev_dt) > 0.01 * curr_dt
+        if (
+            (np.abs(future_dt - prev_dt) > 0.01 * curr_dt)
+            or (np.abs(curr_dt - prev_dt) > 0.01 * curr_dt)
+            or (np.abs(future_dt - before_future_dt) > 0.01 * curr_dt)
         ):
             # Jitter in the timestep, fall back to a lower order method that
             # can handle this.
